@@ -77,7 +77,7 @@ def check(rep):
     profile = "debug"
     sched_cases, smeta = [], []
     for name, data in files:
-        (b, _), = readcheck.run_both([{"data": data}], profile, want_model=False)
+        (b, _), = readcheck.run_both([{"data": data}], profile, want_model=False, revisit=False)
         if b.get("open") != "ok":
             continue
         tids = [t["id"] for t in b["tracks"]] + [0, 99]
@@ -103,14 +103,14 @@ def check(rep):
             if calls:
                 sched_cases.append({"data": data, "calls": calls})
                 smeta.append((name, data, calls))
-    res = readcheck.run_both(sched_cases, profile, want_model=False)
+    res = readcheck.run_both(sched_cases, profile, want_model=False, revisit=False)
     # fresh-reader baselines for every distinct call of every file
     distinct = {}
     for (name, data, calls) in smeta:
         for c in calls:
             distinct.setdefault((name, tuple(c)), (data, c))
     keys = list(distinct)
-    fres = readcheck.run_both([{"data": distinct[k][0], "calls": [distinct[k][1]]} for k in keys], profile, want_model=False)
+    fres = readcheck.run_both([{"data": distinct[k][0], "calls": [distinct[k][1]]} for k in keys], profile, want_model=False, revisit=False)
     fresh = {k: (r[0]["calls"][0][3] if r[0].get("calls") else None) for k, r in zip(keys, fres)}
     for (name, data, calls), (impl, _) in zip(smeta, res):
         stats["schedules"] += 1
@@ -124,7 +124,7 @@ def check(rep):
                                                           "in_schedule": got[3], "fresh": want, "schedule": calls[:i + 1], "case": name, "file": data.hex()}))
                 break
     # model vs implementation under a schedule: the model's default call list IS a schedule; compare it through readcheck on the same files
-    mres = readcheck.run_both([{"data": d} for _, d in files], profile, want_model=True)
+    mres = readcheck.run_both([{"data": d} for _, d in files], profile, want_model=True, revisit=False)
     for (name, d), (impl, model) in zip(files, mres):
         t = readcheck.correspondence(impl, model)
         if t and t != "skipped":
